@@ -284,7 +284,7 @@ def validateRfc : St → Bytes → Res × St := validateWith rfcStep 0 1
 
 ```
 int state = vld->state; size_t i = 0;
-while (i < length && state != 1) {
+while (i < length) {                       // before /repo c2c187d5: while (i < length && state != 1)
    state = <step>;
    if (state == 1) { vld->state = state; vld->current_index = i; vld->total_index += i; return -1; }
    i++;
@@ -292,13 +292,18 @@ while (i < length && state != 1) {
 vld->state = state; vld->current_index = length; vld->total_index += length;
 return state == 0 ? 0 : 1;
 ```
-wrapper: `(res >= 0, res == 0, current_index, total_index)`.
-Entered with `state == 1` (a previous call rejected) the loop body never runs: the call "consumes" the
-whole chunk and returns 1, i.e. `(True, False, len, total + len)` — finding F1. The literals `1` and `0` in
-this function are literals in the C source (not the `UTF8_*` macros).
+wrapper: `(res >= 0, res == 0, current_index, total_index)`. The literals `1` and `0` in this function are
+literals in the C source (not the `UTF8_*` macros).
+
+`guardsReject` is what the translator reads from the `while (...)` condition (`Generated/Utf8LoopC.lean`):
+  * `false` (today's source): the loop body also runs when the call is entered with `state == 1`; the reject row of the
+    automaton answers 1 at once, so a non-empty chunk is rejected at index 0 with an unchanged total index, and an
+    empty chunk falls through to `(True, False, 0, total)` — exactly the pure-Python behaviour;
+  * `true` (the source before the repair, finding F1): entered with `state == 1` the loop body never runs, the call
+    "consumes" the whole chunk and returns 1, i.e. `(True, False, len, total + len)`.
 -/
-def validateNvxWith (step : Nat → Nat → Nat) (st : St) (ba : Bytes) : Res × St :=
-  if st.state = 1 then
+def validateNvxWith (guardsReject : Bool) (step : Nat → Nat → Nat) (st : St) (ba : Bytes) : Res × St :=
+  if guardsReject && st.state == 1 then
     (⟨true, false, ba.length, st.index + ba.length⟩, ⟨1, st.index + ba.length⟩)
   else
     match loop step 1 st.state 0 ba with
